@@ -233,23 +233,17 @@ def r3_callsites(ctx):
         # traversal: self.layers.iter_mut().rev().enumerate().for_each(|(i, layer)| match layer {..})
         trav = None
         for x in walk(fn["body"], into_closures=False):
-            if x.get("k") == "mcall" and x["name"] == "for_each":
-                chain = []
-                r = strip(x["recv"])
-                while r.get("k") == "mcall":
-                    chain.append(r["name"])
-                    r = strip(r["recv"])
-                if r.get("k") == "field" and r["f"] == "layers":
-                    trav = (x, list(reversed(chain)))
-                    break
+            t_ = e4.traversal(x)
+            if t_ is not None and t_["field"] == "layers" and any(cal == "optimizer::Optimizer::update" for _, cal in calls(t_["body"])):
+                trav = t_
         if trav is None:
-            raise Unestablished("no traversal of self.layers in %s" % fpath, c.loc(fn))
-        x, chain = trav
+            raise Unestablished("no traversal of self.layers calling the optimizer in %s" % fpath, c.loc(fn))
+        x, chain = trav["node"], trav["methods"]
         short_name = fpath.split("::")[1]
         ctx.check("R03.3", short_name + ":reverse-enumerate", chain == ["iter_mut", "rev", "enumerate"], "layer-walk:" + ".".join(chain), c.loc(fn, x),
                   "layers walked as iter_mut().rev().enumerate(), matching the reverse order in which set_optimizer sizes the state",
                   "optimizer state is allocated in reverse layer order (set_optimizer/copy_optimizer); the walk is %s" % chain)
-        cl = strip(x["args"][0])
+        cl = {"body": trav["body"], "params": [trav["pat"]]}
         binds = pat_binds(cl["params"][0])
         ih = binds[0][1]
         n = 0
@@ -261,9 +255,11 @@ def r3_callsites(ctx):
                 bias_v = e4.lit_value(a[2])
                 filt = strip(a[1])
                 # gradient argument indexed by the same i
-                gsel = any(z.get("k") == "index" and e4.local_hid(z["i"]) == ih for z in walk(a[5])) or e4.local_hid(a[5]) is not None
-                values = pretty(strip(a[4]))
-                grads = pretty(strip(a[5]))
+                from ..hir import let_table, cpretty
+                TT = let_table(fn["body"])
+                values = cpretty(a[4], TT)
+                grads = cpretty(a[5], TT)
+                gsel = ("[%s]" % binds[0][0]) in grads or e4.local_hid(a[5]) is not None
                 kind_ok = True
                 if bias_v == "true":
                     kind_ok = "bias" in values and "bias" in grads and e4.lit_value(a[1]) == "0"
